@@ -20,6 +20,18 @@ from harness import engine
 SHAPES = {0: (6, 7, 8), 1: (7, 7, 8)}
 
 
+def purge_acryo() -> None:
+    """Forget every imported acryo module, so that the next import starts from pristine module-level state (lru caches, but also
+    plain module-level dictionaries, which cache_clear() cannot reach).  Used for the reference values only."""
+    import sys
+
+    for k in [m for m in sys.modules if m == "acryo" or m.startswith("acryo.")]:
+        del sys.modules[k]
+
+
+_FRESH: dict = {}
+
+
 def clear_all_caches() -> int:
     import acryo
 
@@ -188,6 +200,21 @@ def _call(entry: str, x: dict, ctx: _Ctx):
         out = np.full((6, 3), -1.0)
         out[: min(6, len(pos))] = pos[order][:6]
         return out
+    if entry == "log_sigma_pairs":
+        # pickers with different exclusion radii that round up to the same integer window (2.6 and 3.0 pixels), on an image
+        # with many local maxima
+        from scipy import ndimage as ndi
+        from acryo import pick
+
+        rng = np.random.default_rng(17 + x["a"])
+        img = ndi.gaussian_filter(rng.normal(size=(24, 26, 28)), 1.5).astype(np.float32)
+        scale = (1.0, 0.5)[x["c"]]
+        mol = pick.LoGPicker(sigma=(2.6, 3.0)[x["b"]] * scale).pick_molecules(img, scale)
+        pos = np.asarray(mol.pos, dtype=np.float64) / scale
+        order = np.lexsort(pos.T[::-1]) if len(pos) else []
+        out = np.full((60, 3), -1.0)
+        out[: min(60, len(pos))] = pos[order][:60]
+        return np.concatenate([out.ravel(), [float(len(pos))]])
     if entry == "loader_load_inplace":
         ldr = ctx.loader_at(x["a"], None)
         box = ((5, 5, 5), (4, 5, 6))[x["b"]]
@@ -211,10 +238,11 @@ def replay(case) -> dict:
     try:
         for x in prog:
             k = "".join(str(x[f]) for f in "abc")
-            if k not in fresh:
-                clear_all_caches()
-                fresh[k] = np.array(_call(entry, x, _Ctx()), copy=True)
-        clear_all_caches()
+            if (entry, k) not in _FRESH:
+                purge_acryo()                       # reference: a pristine import, new objects
+                _FRESH[(entry, k)] = np.array(_call(entry, x, _Ctx()), copy=True)
+            fresh[k] = _FRESH[(entry, k)]
+        purge_acryo()
         ctx = _Ctx()
         for i, x in enumerate(prog):
             k = "".join(str(x[f]) for f in "abc")
